@@ -153,6 +153,10 @@ def _has_inner_bmult(chain):
     return any(u['has_bmult'] or any(_has_inner_bmult(s) for _, s in u['branches']) for u in chain)
 
 
+def _has_ring(chain):
+    return any(u['rings'] or any(_has_ring(s) for _, s in u['branches']) for u in chain)
+
+
 def structure(tokens):
     """features of the multiplied branch units of a sentence"""
     feats = set()
@@ -165,6 +169,8 @@ def structure(tokens):
                     feats.add('bmult_in_bmult')
                 if _count_groups(sub) >= 2:
                     feats.add('bmult_with_2plus_nested_groups')
+                if _has_ring(sub):
+                    feats.add('ring_in_bmult')
             for _, s in u['branches']:
                 walk(s, inside or u['has_bmult'])
     walk(G.parse(tuple(tuple(t) for t in tokens)), False)
